@@ -8,7 +8,7 @@ PROPS = {}
 PROPS['C10'] = dict(
     level='proof',
     composition='Verus lemmas L3 (contracts/lemmas.vtmpl: lemma_reuse_without_reader, lemma_retained_under_reader, lemma_reuse_resumes) on top of L2',
-    units=['freelist', 'txn', 'commit', 'open', 'lemmas'],
+    units=['freelist', 'txn', 'commit', 'open', 'lemmas', 'nodeio'],
     explanation='Freed space is reused: release is an equality (F2: nothing kept back, nothing released early), the bound a writer passes is the oldest open reader or itself (X1) '
                 'and a closing reader removes exactly its own id keeping the list ascending (X2); allocate is first-fit and COMPLETE (F1: None only if no run exists) and the file is '
                 'extended only on None (T1); what is persisted is free + pending with exact length/multiset accounting (F4, W1 w6) and the old free-list run itself is released; '
@@ -27,14 +27,15 @@ A_VIEWS = 'page/header views into the map are uninterpreted functions of (bytes,
 A_SEQ = 'sequential view of Mutex/RwLock (prelude/sync.rs): a lock yields the value current at that call, locks are never poisoned'
 
 PROPS['C12'] = dict(
+    bounded_quick=[('header', 'that the state behind the intact header is COMPLETE (its pages were not recycled by the newest commit) needs the tree layer and the whole commit path, outside the verifier\'s reach as one argument; the oracle damages one header page of files with 0..3 commits and requires contents, DB::check() and a further commit')],
     level='proof',
     composition='Verus lemmas L4: lemma_single_byte_damage_detected / lemma_hash_field_damage_detected (meta unit, from the proved FNV-1a sensitivity lemmas), lemma_fallback_to_intact_slot / lemma_newest_wins (db unit)',
-    units=['meta', 'db', 'freelist', 'open'],
+    units=['meta', 'db', 'freelist', 'open', 'commit'],
     kani_quick=['layout'],
     explanation='DBInner::open (unit open): on a file with one intact header opening fails only when the operating system refuses the lock or the mapping (never a rejection or panic derived from the other slot). Header damage falls back: DBInner::meta returns exactly select_header (newest slot that is tagged META and whose checksum '
                 'matches; current format first, then legacy) with the other slot ARBITRARY, never panics under that precondition (M3); '
                 'Meta::valid is hash == FNV-1a of the pinned 60 bytes (M1); one-byte changes of the hashed bytes change the hash '
-                '(M1-sens, proved by bit-vector + induction); pages freed by the newest commit sit in pending[tx] which allocate never touches (F1, F3).',
+                '(M1-sens, proved by bit-vector + induction); pages freed by the newest commit sit in pending[tx] which allocate never touches (F1, F3), and the commit itself releases nothing: its pending lists are those it began with plus what it freed, the old free-list run included (unit commit: TxInner::write_data w6 and the pending frame), so the snapshot of the OTHER header stays whole until the next writer begins.',
     level_text='Machine-checked contracts on the real bodies of DBInner::meta, Page::meta/old_meta, Meta::valid/hash_self, OldMeta::*, From<&OldMeta>, for all file contents; layout pins by complete (loop-free, fully symbolic) Kani harnesses.',
     level_note='Trusted: FNV-1a/SHA3 crates, page-view stubs (field offsets checked by K1), multi-byte damage relies on H1. Lemma L4 (composition) is on paper.',
     assumptions=[A_TOOLS, A_ARITH, A_FNV, A_VIEWS, A_SEQ, 'SHA3-256 is an uninterpreted function of the hashed bytes (legacy header)'],
@@ -90,7 +91,7 @@ PROPS['C11'] = dict(
 PROPS['C03'] = dict(
     level='proof',
     composition='Verus lemmas L2 (contracts/lemmas.vtmpl: lemma_begin_reader, lemma_end_reader, lemma_commit) over an abstract state whose transitions are written with the spec functions of the code contracts; the identification of each transition with the corresponding function postcondition is by reading (same spec fns)',
-    units=['txn', 'freelist', 'commit', 'lemmas'],
+    units=['txn', 'freelist', 'commit', 'lemmas', 'nodeio'],
     explanation='Snapshot protection: Tx::new (X1) is verified on its real body: a writer releases exactly the pending pages of transactions older than '
                 'open_ro_txs[0] (the oldest open reader, because the list is kept ascending: lock invariant re-established at every guard release) or, '
                 'with no reader, older than itself (F2 is an equality: nothing more, nothing less); a reader gets an unchanged copy of the free list and registers its '
@@ -179,14 +180,14 @@ PROPS['C05'] = dict(
     bounded_quick=[('history', 'Node::split / spill / write / free_page, InnerBucket::merge_nodes / rebalance / spill (Rc<RefCell<Node>> graph, float thresholds), Page::write_node / Node::from_page beyond the bounded Kani codec')],
     level='proof',
     composition='the accounting part of INV (pending pages below the high-water mark, not free, pending once; live pages not free) is preserved by begin/end reader and commit: Verus lemma L2 (contracts/lemmas.vtmpl) under assumptions A1/A2',
-    units=['freelist', 'commit', 'open', 'pagenode', 'lemmas', 'bucketops'],
+    units=['freelist', 'commit', 'open', 'pagenode', 'lemmas', 'bucketops', 'nodeio'],
     kani_quick=['layout'],
     kani_thorough=['codec'],
     explanation='Page accounting, allocator and serialisation side (the tree-shape half is outside): the allocator never hands out a page that is pending, already allocated in this transaction or a header page, '
                 'and hands out a free run (the code: the lowest) or, only when there is none, fresh pages (F1, T1: pages_wf / below_hwm invariants); freeing appends exactly the run to pending[tx], with exact multiset accounting '
                 '(F3, T2: pend_ms); release moves exactly the pending lists below the bound (F2); what is persisted is free + pending, sorted, with exact length (F4) in a freshly allocated free-list page '
                 'after the old run was freed, and the header publishes the allocator\'s high-water mark and that page (W1 w6, w8); every page written lies below the high-water mark inside the file (w1, w5); '
-                'a new file starts with two valid headers, an empty free-list page and an empty leaf (O1); node entries stay strictly ascending under insert/delete (N1); element headers and payloads '
+                'a new file starts with two valid headers, an empty free-list page and an empty leaf (O1); node entries stay strictly ascending under insert/delete (N1); a node that is rewritten gives its WHOLE old run back to pending[tx] exactly once, forgets it, and names exactly the run the allocator handed out, long enough for its serialised size; a node merged away takes no page (unit nodeio: Node::free_page / allocate / write); a rewritten child REPLACES the parent entry it was filed under and a new sibling is added in key order, nothing else touched (Node::insert_branch), splitting a node cuts its entries exactly at the index (NodeData::split_at); element headers and payloads '
                 'round-trip through the real pointer code inside the page run (K2, BOUNDED, thorough tier).',
     level_text='Unbounded proofs of the allocator / free-list / commit-publication obligations on the real code; bounded Kani harnesses (labelled, not counted) for the raw-pointer codec.',
     level_note='The nested-bucket double free named in the property text (E10, repaired) is now a step obligation of InnerBucket::delete_bucket (a nested root queued for freeing is not already freed by this transaction). NOT decided: that rebalance/spill free each page at most once, key order across pages, separator bounds, '
